@@ -30,6 +30,7 @@ type Instance struct {
 	Expect  []string `json:"-"` // reach labels that must be hit on some path
 	Nondet  bool     `json:"-"` // native behaviour is schedule dependent: skip trace validation
 	MapOrd  bool     `json:"-"` // the harness explores map iteration orders: native replays are repeated
+	OneOrd  bool     `json:"-"` // thorough: not extracted a second time under the newest-first thread order (too many unordered access pairs)
 }
 
 // Family is everything one property check runs.
@@ -177,6 +178,9 @@ func runCheck(prop, tier string, seed int64, gen generator) int {
 	} else {
 		smt.Global = smt.NewSampler(100)
 	}
+	if os.Getenv("VCHECK_NEWEST") != "" {
+		cfg.NewestFirst = true // debug: first extraction under the newest-first thread order
+	}
 	ex := &interp.Explorer{Prog: prog, Cfg: cfg}
 	workers := *flagWorkers
 	if workers <= 0 {
@@ -264,7 +268,9 @@ func runCheck(prop, tier string, seed int64, gen generator) int {
 			}()
 		}
 		for _, in := range fam.Instances {
-			jobs2 <- in
+			if !in.OneOrd {
+				jobs2 <- in
+			}
 		}
 		close(jobs2)
 		wg2.Wait()
